@@ -6,6 +6,7 @@ import (
 	"encoding/binary"
 	"encoding/hex"
 	"fmt"
+	"math/rand"
 	"os"
 	"os/exec"
 	"path/filepath"
@@ -196,6 +197,27 @@ func c10Inputs(c *core.Ctx) []c10Input {
 			}
 		}
 	}
+	// packed event streams (back-to-back entries): every truncation, and mutations
+	for i := 0; i < c.N(6, 150); i++ {
+		es := gen.GenEntries(r, false)
+		for len(es) > 4 {
+			es = es[:4]
+		}
+		if len(es) == 0 {
+			continue
+		}
+		st, err := gen.EntriesToGo(r, es).MarshalPacked()
+		if err != nil || len(st) > 600 {
+			continue
+		}
+		for p := 0; p < len(st); p++ {
+			ins = append(ins, c10Input{"prefix:packed-stream", st[:p]})
+		}
+		for k := 0; k < 6; k++ {
+			mut, label := gen.Mutate(r, st)
+			ins = append(ins, c10Input{"mutated-stream:" + label, mut})
+		}
+	}
 	for i := 0; i < c.N(300, 20000); i++ {
 		ins = append(ins, c10Input{"random", gen.RandomBytes(r)})
 	}
@@ -229,6 +251,93 @@ func c10Inputs(c *core.Ctx) []c10Input {
 		ins = append(ins, c10Input{"hostile", h})
 	}
 	return ins
+}
+
+// c10ClientPaths: the client's own read paths towards an arbitrary peer — no HELO, PONG or
+// ack byte sequence makes Handshake or Send panic, nor leaves the client in transport phase
+// without a valid handshake.
+func c10ClientPaths(c *core.Ctx) {
+	r := c.Rng
+	key, chost, shost, nonce := []byte("k3y"), []byte("client"), []byte("server"), []byte{1, 2, 3}
+	helo := mustMarshal(&protocol.Helo{MessageType: "HELO", Options: &protocol.HeloOpts{Nonce: nonce, Auth: []byte{}, Keepalive: true}})
+	for i := 0; i < c.N(400, 8000); i++ {
+		seed := r.Int63()
+		salt := make([]byte, 16)
+		rand.New(rand.NewSource(seed)).Read(salt)
+		good := sha512hex(salt, shost, nonce, key)
+		digest := good
+		switch r.Intn(8) {
+		case 0:
+			digest = ""
+		case 1:
+			digest = good[:r.Intn(len(good))]
+		case 2:
+			digest = good + strings.Repeat("0", 1+r.Intn(300))
+		case 3:
+			digest = strings.Repeat("f", 128)
+		case 4:
+			b := []byte(good)
+			b[r.Intn(len(b))] ^= 1
+			digest = string(b)
+		}
+		pong := mustMarshal(&protocol.Pong{MessageType: "PONG", AuthResult: r.Intn(6) != 0, ServerHostname: string(shost), SharedKeyHexDigest: digest})
+		inp1, inp2 := helo, pong
+		how := "well-formed HELO, PONG with digest variant"
+		switch r.Intn(4) {
+		case 0:
+			inp2, _ = gen.Mutate(r, pong)
+			how = "mutated PONG"
+		case 1:
+			inp1, _ = gen.Mutate(r, helo)
+			how = "mutated HELO"
+		case 2:
+			inp2 = gen.RandomBytes(r)
+			how = "random bytes for PONG"
+		}
+		hc := hsCase{key: key, chost: chost, shost: shost, nonce: nonce, script: "raw"}
+		res := runHandshakeRaw(seed, hc, inp1, inp2)
+		c.Eval()
+		c.Hist("client read path: " + how + " -> " + res.class)
+		replay := map[string]interface{}{"helo_bytes": hx(inp1), "pong_bytes": hx(inp2), "salt": hx(salt), "key": hx(key), "result": res.class, "transport": res.transport}
+		if res.class == "panic" {
+			c.Violation("panic", "c10-panic:Handshake", "Client.Handshake panicked on "+how, replay)
+			continue
+		}
+		c.Corr("c10-handshake", "client_handshake", []string{hx(chost), hx(key), hx(salt), hx(inp1), hx(inp2)}, fmt.Sprintf("written=%s;res=%s", hx(res.written), res.class))
+		if res.transport {
+			// transport phase requires a PONG with auth_result = true and the digest of the formula
+			var p protocol.Pong
+			if _, err := p.UnmarshalMsg(inp2); err != nil || !p.AuthResult || p.SharedKeyHexDigest != sha512hex(salt, []byte(p.ServerHostname), nonceOf(inp1, nonce), key) {
+				c.Violation("judge-go", "c10-transport-without-handshake", "the client is in transport phase although the peer's bytes are not a valid PONG for this handshake ("+how+")", replay)
+			}
+		}
+	}
+	// acks: arbitrary peer bytes after a send never panic the client
+	cf := ccfg{host: []byte("h"), ack: true, timeout: 50 * time.Millisecond}
+	for i := 0; i < c.N(150, 3000); i++ {
+		o := mkSend(cf, sizedMessage(r, "message", 10, "c10-chunk"), -1)
+		o.resp = gen.RandomBytes(r)
+		if r.Intn(2) == 0 {
+			o.resp, _ = gen.Mutate(r, ackBytes(o.chunk))
+		}
+		if len(o.resp) > 0 && oversizedCount(o.resp) {
+			continue
+		}
+		rs := runClientOps(cf, []cop{{kind: "C", dialOK: true, wfault: -1}, o})
+		c.Eval()
+		c.Hist("client read path: ack bytes -> " + rs[1].ret)
+		if rs[1].ret == "panic" {
+			c.Violation("panic", "c10-panic:Send", "Client.Send panicked while reading the peer's response", map[string]interface{}{"resp": hx(o.resp)})
+		}
+	}
+}
+
+func nonceOf(heloBytes, dflt []byte) []byte {
+	var h protocol.Helo
+	if _, err := h.UnmarshalMsg(heloBytes); err == nil && h.Options != nil {
+		return h.Options.Nonce
+	}
+	return dflt
 }
 
 const c10MemLimit = 4 << 30
@@ -278,6 +387,7 @@ func C10child(c *core.Ctx) {
 }
 
 func C10(c *core.Ctx) {
+	defer c10ClientPaths(c)
 	ins := c10Inputs(c)
 	es := c10Entries()
 	f, err := os.Create(filepath.Join(c.OutDir, "inputs.txt"))
